@@ -3,7 +3,8 @@ import vlib
 import impl
 from props import common
 
-THEOREMS = ['Props/C03.v: C03_leaves_and_cached (forall t: the leaves of parse(t) are the lexer tokens of the split '
+THEOREMS = ['Props/C03.v: C03_nonempty (every group of every parsed statement is non-empty: Inst/TotalParse.v cur_parse_nonempty, Group/TotalFacts.v group_statement_nonempty)',
+            'Props/C03.v: C03_leaves_and_cached (forall t: the leaves of parse(t) are the lexer tokens of the split '
             'statements -- same values, same types up to a re-typing to Operator -- and every group caches its text)',
             'C03_every_pass (the same after any prefix of the pass list)',
             'C03_at_offset (offset lookup returns the leaf covering the offset)',
@@ -66,6 +67,28 @@ def oracle(text):
                 got = g.token_prev(i)
                 if got[0] != exp[0] or got[1] is not exp[1]:
                     return {'input': inp, 'observed': 'token_prev disagrees with the sibling list'}
+                # the other option combinations: skip_ws=False (immediate sibling), skip_cm=True (also skip comment
+                # leaves and Comment groups)
+                def is_cm(t):
+                    return isinstance(t, sql.Comment) or (t.ttype is not None and t.ttype in T.Comment)
+                for sw, scm in ((False, False), (True, True), (False, True)):
+                    def keep(t, sw=sw, scm=scm):
+                        return not ((sw and t.is_whitespace) or (scm and is_cm(t)))
+                    exp = next(((j, t) for j, t in enumerate(g.tokens) if j > i and keep(t)), (None, None))
+                    got = g.token_next(i, skip_ws=sw, skip_cm=scm)
+                    if got[0] != exp[0] or got[1] is not exp[1]:
+                        return {'input': inp, 'observed': 'token_next(skip_ws=%s, skip_cm=%s) disagrees with the sibling list' % (sw, scm)}
+                    exp = next(((j, g.tokens[j]) for j in range(i - 1, -1, -1) if keep(g.tokens[j])), (None, None))
+                    got = g.token_prev(i, skip_ws=sw, skip_cm=scm)
+                    if got[0] != exp[0] or got[1] is not exp[1]:
+                        return {'input': inp, 'observed': 'token_prev(skip_ws=%s, skip_cm=%s) disagrees with the sibling list' % (sw, scm)}
+            # token_first with the same options
+            for sw, scm in ((True, False), (False, False), (True, True)):
+                def keep1(t, sw=sw, scm=scm):
+                    return not ((sw and t.is_whitespace) or (scm and (isinstance(t, sql.Comment) or (t.ttype is not None and t.ttype in T.Comment))))
+                exp1 = next((t for t in g.tokens if keep1(t)), None)
+                if g.token_first(skip_ws=sw, skip_cm=scm) is not exp1:
+                    return {'input': inp, 'observed': 'token_first(skip_ws=%s, skip_cm=%s) disagrees with the sibling list' % (sw, scm)}
             stack.extend(g.tokens)
         # ancestry
         def walk(n, anc):
